@@ -249,6 +249,7 @@ func VerifPipeExpiredNext(buf int, polls int) {
 		vAssert(v == next, "pipe/values-in-order-each-once")
 		next = v + 1
 	}
+	vWindow() // native replay: let the sender get a value in flight first
 	for p := 0; p < polls; p++ {
 		v, err := recv.Next(expired)
 		if err == nil {
